@@ -789,3 +789,29 @@ def describe_mask(m: int) -> str:
     if len(bs) > 40:
         return f"<{len(bs)} bytes>"
     return repr(bs)
+
+
+def mandatory_groups(pattern) -> set[int]:
+    """Capture groups that participate in every match (not under an alternation branch or a repeat with min 0)."""
+    tree, _fl, _ = parse(pattern)
+    out = set()
+
+    def walk(items, mand):
+        for op, av in items:
+            if op is sc.SUBPATTERN:
+                g, _a, _d, sub = av
+                if g is not None and mand:
+                    out.add(g)
+                walk(sub, mand)
+            elif op is sc.BRANCH:
+                for alt in av[1]:
+                    walk(alt, False)
+            elif op in (sc.MAX_REPEAT, sc.MIN_REPEAT) or op is getattr(sc, "POSSESSIVE_REPEAT", None):
+                lo, _hi, sub = av
+                walk(sub, mand and lo >= 1)
+            elif op in (sc.ASSERT, sc.ASSERT_NOT):
+                walk(av[1], False)
+            elif op is getattr(sc, "ATOMIC_GROUP", None):
+                walk(av, mand)
+    walk(tree, True)
+    return out
